@@ -12,7 +12,7 @@ func checkC06(r *Run) {
 	}
 	ruleA3(r, p)
 	ruleA13(r, p, map[string]bool{"": true, "diode": true}, "abc")
-	ruleA14(r, p, "A14", map[string]bool{"": true}, []string{"BasicSampler.counter", "BurstSampler.counter", "BurstSampler.resetAt", "gLevel", "disableSampling"})
+	ruleA14(r, p, "A14", map[string]bool{"": true}, []string{"BasicSampler.counter", "BurstSampler.counter", "BurstSampler.resetAt", "@SetGlobalLevel|GlobalLevel", "@DisableSampling|samplingDisabled"})
 	ruleA15a(r, p, "A15a", "", "syncWriter")
 	ruleA15a(r, p, "A15a", "", "TriggerLevelWriter")
 	rulePoolCount(r, p)
